@@ -12,6 +12,17 @@ def nontrivial(req, obs):
     return len(f) in (3, 4) and f[1].count(";") >= 1 and obs != "-"
 
 
+def _split_cand(c):
+    """'<id>:<nd>:<params>[:t<kinds>]' -> (id, nd, [params], suffix)"""
+    parts = c.split(":")
+    ps = parts[2].split(",") if parts[2] else []
+    return parts[0], int(parts[1]), ps, (":" + parts[3] if len(parts) > 3 else "")
+
+
+def _join_cand(cid, nd, ps, suffix):
+    return "%s:%d:%s%s" % (cid, min(nd, len(ps)), ",".join(ps), suffix)
+
+
 def finding_key(req, obs, detail):
     import re
     m = re.match(r"FAIL:panic ([^:]+):\d+: (.*)$", detail or "")
@@ -21,7 +32,11 @@ def finding_key(req, obs, detail):
             if crate in path:       # a scratch copy of the repository (VERIF_REPO) has another absolute prefix
                 path = path[path.index(crate):]
                 break
-        return "panic %s: %s" % (path, re.sub(r"\d+", "N", m.group(2)))
+        msg = re.sub(r"\d+", "N", m.group(2))
+        if path.endswith("ir/src/ir_types.rs") and re.search(r"inside (vector|matrix)$", msg):
+            # TypeRegistry::register_type: one defect, the message names the offending inner layer
+            msg = "<non-scalar layer> inside vector/matrix"
+        return "panic %s: %s" % (path, msg)
     f = req.split("\t")
     if f[0] == "C16.resolve" and len(f) in (3, 4):
         # the finding is about the candidate *set* and the arguments, not about one declaration order
@@ -33,43 +48,49 @@ def shrink(req):
     f = req.split("\t")
     if f[0] != "C16.resolve" or len(f) not in (3, 4):
         return
-    tail = f[3:]
-    if tail:
-        # without the separate definitions
-        yield "\t".join(f[:3])
-    cands = f[1].split(";")
-    # drop one candidate
-    if len(cands) > 2:
+    opts = [o for o in (f[3].split(",") if len(f) == 4 and f[3] else [])]
+
+    def line(cands, args, o):
+        return "\t".join([f[0], ";".join(cands), ",".join(args)] + ([",".join(o)] if o else []))
+
+    cands = f[1].split(";") if f[1] else []
+    args = f[2].split(",") if f[2] else []
+    # drop one option (declared-then-defined, the call path, the explicit template arguments); the compiler's own
+    # overloads (ids >= 1000) only make sense on their path
+    builtin = any(int(_split_cand(c)[0]) >= 1000 for c in cands)
+    for i, o in enumerate(opts):
+        if o.startswith("P=") and builtin:
+            continue
+        yield line(cands, args, opts[:i] + opts[i + 1:])
+    # drop one (user) candidate
+    if len(cands) > 1:
         for i in range(len(cands)):
-            yield "\t".join([f[0], ";".join(cands[:i] + cands[i + 1:]), f[2]] + tail)
+            if int(_split_cand(cands[i])[0]) < 1000:
+                yield line(cands[:i] + cands[i + 1:], args, opts)
     # drop one parameter / argument position everywhere
-    args = f[2].split(",")
-    if len(args) > 1:
+    if len(args) > 1 and not builtin:
         for k in range(len(args)):
             new = []
             ok = True
             for c in cands:
-                cid, nd, ps = c.split(":", 2)
-                ps = ps.split(",")
+                cid, nd, ps, suf = _split_cand(c)
                 if k >= len(ps):
                     ok = False
                     break
-                ps = ps[:k] + ps[k + 1:]
-                new.append("%s:%d:%s" % (cid, min(int(nd), len(ps)), ",".join(ps)))
-            if ok and len(set(c.split(":", 2)[2] for c in new)) == len(new):
-                yield "\t".join([f[0], ";".join(new), ",".join(args[:k] + args[k + 1:])] + tail)
+                new.append(_join_cand(cid, nd, ps[:k] + ps[k + 1:], suf))
+            if ok and len(set((tuple(_split_cand(c)[2]), _split_cand(c)[3]) for c in new)) == len(new):
+                yield line(new, args[:k] + args[k + 1:], opts)
     # drop trailing defaulted parameters
     new = []
     changed = False
     for c in cands:
-        cid, nd, ps = c.split(":", 2)
-        ps = ps.split(",")
-        if len(ps) > len(args):
+        cid, nd, ps, suf = _split_cand(c)
+        if len(ps) > len(args) and int(cid) < 1000:
             ps = ps[:len(args)]
             changed = True
-        new.append("%s:%d:%s" % (cid, min(int(nd), len(ps)), ",".join(ps)))
-    if changed and len(set(c.split(":", 2)[2] for c in new)) == len(new):
-        yield "\t".join([f[0], ";".join(new), f[2]] + tail)
+        new.append(_join_cand(cid, nd, ps, suf))
+    if changed and len(set((tuple(_split_cand(c)[2]), _split_cand(c)[3]) for c in new)) == len(new):
+        yield line(new, args, opts)
 
 
 def search(ctx):
